@@ -295,6 +295,12 @@ impl<const K: usize> AffTree<K> {
         }
 
         for (label, node) in to_remove {
+            // A decision keeps its last child: without children it would turn into a
+            // terminal that holds a predicate. No input reaches the infeasible child,
+            // so keeping it does not alter the represented function.
+            if self.tree.child(node, label).is_ok() && self.tree.num_children(node) == 1 {
+                continue;
+            }
             let _ = self.tree.try_remove_child(node, label);
         }
 
